@@ -732,21 +732,72 @@ Section Frame.
     - intros _ _. apply safe_ret. exact Hc'.
   Qed.
 
+  Lemma inst_typed_safe p c : hdl c -> safe (inst_typed fx p c) any.
+  Proof.
+    intro Hh. unfold inst_typed.
+    apply (safe_miter _ (fun _ => True)); [|apply Forall_True]. intros d _.
+    eapply safe_bind; [apply safe_lift, ns_items_hdl; exact Hh|]. intros kvs [Hk Hor].
+    destruct (aget (d_key d) kvs) as [x|] eqn:E; [|apply safe_ret; exact I].
+    assert (Hc' : refs_ge n c = true). { destruct Hor as [H|H]; [exact H | subst; discriminate]. }
+    pose proof (aget_forallb _ _ _ _ Hk E) as Hx.
+    destruct x; try (apply safe_ret; exact I);
+      (eapply safe_bind;
+       [apply safe_bracket, safe_bracket, safe_bracket, safe_lift, adapt_hsafe; exact Hx
+       | intros y Hy; apply safe_lift, ns_set_safe; auto]).
+  Qed.
+
   Lemma instantiate_safe p cfg : okv cfg -> safe (instantiate fx p cfg) hdl.
   Proof.
     intro Hc. unfold instantiate.
     eapply safe_bind; [apply safe_lift, strip_meta_safe; exact Hc|]. intros c Hh.
-    eapply safe_bind.
-    - apply (safe_miter _ (fun _ => True)); [|apply Forall_True]. intros d _.
-      eapply safe_bind; [apply safe_lift, ns_items_hdl; exact Hh|]. intros kvs [Hk Hor].
-      destruct (aget (d_key d) kvs) as [x|] eqn:E; [|apply safe_ret; exact I].
-      assert (Hc' : refs_ge n c = true). { destruct Hor as [H|H]; [exact H | subst; discriminate]. }
-      pose proof (aget_forallb _ _ _ _ Hk E) as Hx.
-      destruct x; try (apply safe_ret; exact I);
-        (eapply safe_bind;
-         [apply safe_bracket, safe_bracket, safe_bracket, safe_lift, adapt_hsafe; exact Hx
-         | intros y Hy; apply safe_lift, ns_set_safe; auto]).
+    eapply safe_bind; [apply inst_typed_safe; exact Hh|].
+    intros _ _. apply safe_ret. exact Hh.
+  Qed.
+
+  (* ---- class groups.  What strip_meta hands on: a fresh copy, or - only for sm = false - the caller's own EMPTY namespace *)
+  Definition not_empty_old (v : val) : Prop := forall l, v = VRef l -> nth_error h0 l <> Some (CNs []).
+  Lemma strip_meta_gen_safe sm v : okv v ->
+    hsafe (strip_meta_gen sm fx v) (fun r => refs_ge n r = true \/ (sm = false /\ r = v /\ ~ not_empty_old v /\ hdl r)).
+  Proof.
+    intro Hv. unfold strip_meta_gen. destruct sm.
+    { eapply hsafe_weaken; [apply clone_safe; exact Hv|]. intros a Ha. left. exact Ha. }
+    unfold strip_meta. eapply hsafe_bind; [apply hsafe_read_which|]. intros c [l [-> Hc]].
+    assert (Hcl : hsafe (clone fx FUEL (VRef l))
+                        (fun r => refs_ge n r = true \/ (false = false /\ r = VRef l /\ ~ not_empty_old (VRef l) /\ hdl r))).
+    { eapply hsafe_weaken; [apply clone_safe; exact Hv|]. intros a Ha. left. exact Ha. }
+    destruct c as [xs|kvs|kvs]; auto. destruct kvs; auto.
+    apply hsafe_ret. destruct (Nat.ltb_spec l n) as [Hl|Hl].
+    - right. split; [reflexivity|]. split; [reflexivity|]. split.
+      + intro Hne. apply (Hne l eq_refl). apply Hc. exact Hl.
+      + right. exists l. split; [reflexivity|]. split; [exact Hl|]. apply Hc; exact Hl.
+    - left. simpl. apply Nat.leb_le. exact Hl.
+  Qed.
+
+  Lemma group_step_safe c g : refs_ge n c = true -> safe (group_step c g) any.
+  Proof.
+    intro Hc. unfold group_step. apply safe_bracket, safe_bracket.
+    eapply safe_bind; [apply safe_lift, hsafe_alloc; reflexivity|]. intros obj Hobj.
+    apply safe_lift, ns_set_safe; auto.
+  Qed.
+
+  Lemma instantiate_groups_safe sm p gs cfg :
+    okv cfg -> (sm = false -> gs = [] \/ not_empty_old cfg) -> safe (instantiate_groups sm fx p gs cfg) hdl.
+  Proof.
+    intros Hc G. unfold instantiate_groups.
+    eapply safe_bind; [apply safe_lift, strip_meta_gen_safe; exact Hc|]. intros c Hr.
+    assert (Hh : hdl c). { destruct Hr as [H|[_ [_ [_ H]]]]; [left; exact H | exact H]. }
+    eapply safe_bind; [apply inst_typed_safe; exact Hh|]. intros _ _.
+    eapply (safe_bind _ _ any).
+    - destruct Hr as [Hf|[Esm [-> [Hne _]]]].
+      + apply (safe_miter _ (fun _ => True)); [|apply Forall_True]. intros g _. apply group_step_safe. exact Hf.
+      + destruct (G Esm) as [->|Hg]; [simpl; apply safe_ret; exact I | contradiction].
     - intros _ _. apply safe_ret. exact Hh.
+  Qed.
+
+  Lemma groups_guard_parts o a gs : groups_guard h0 o = true -> o = OInstantiateGroups a gs -> gs = [] \/ not_empty_old a.
+  Proof.
+    intros G ->. simpl in G. destruct gs as [|g gs]; [left; reflexivity|]. right. intros l ->.
+    destruct (nth_error h0 l) as [[xs|kvs|[|kv kvs]]|]; try discriminate; congruence.
   Qed.
 
   Lemma guard_parts p o : guard p h0 o = true ->
@@ -754,15 +805,17 @@ Section Frame.
     /\ (forall a, o = OParseObject a -> parse_object_arg_ok h0 a = true).
   Proof.
     unfold guard, guard_class. fold n.
+    destruct (groups_guard h0 o); simpl; [|discriminate].
     destruct (forallb (flat_old n) (op_args o) && parser_flat n p) eqn:E; simpl; [|discriminate].
     apply andb_true_iff in E. destruct E as [Hargs Hp]. intro G. split; [exact Hargs|]. split; [exact Hp|].
     intros a ->. destruct (parse_object_arg_ok h0 a); [reflexivity | discriminate].
   Qed.
 
   (* one statement for both trees: the pinned tree under the guard, the fixed tree without *)
-  Lemma run_op_safe p o : (fx = false -> guard p h0 o = true) -> safe (run_op_gen fx p o) any.
+  Lemma run_op_safe sm p o : (fx = false -> guard p h0 o = true) -> (sm = false -> groups_guard h0 o = true) ->
+    safe (run_op_sm sm fx p o) any.
   Proof.
-    intro G.
+    intros G GG.
     assert (Hargs : Forall okv (op_args o)).
     { apply Forall_forall. intros a Ha. destruct (Bool.bool_dec fx true) as [Efx|Efx]; [apply okv_fixed; exact Efx|].
       apply Bool.not_true_is_false in Efx. destruct (guard_parts p o (G Efx)) as [H _].
@@ -785,7 +838,8 @@ Section Frame.
     - eapply safe_bind; [apply save_safe; auto|]. intros _ _. apply safe_ret. exact I.
     - eapply safe_weaken; [apply merge_safe; auto | auto].
     - eapply safe_weaken; [apply strip_unknown_safe; auto | auto].
-    - eapply safe_weaken; [apply instantiate_safe; auto | auto].
+    - eapply safe_weaken; [apply instantiate_groups_safe; [auto | intros _; left; reflexivity] | auto].
+    - eapply safe_weaken; [apply instantiate_groups_safe; [auto | intro Esm; eapply groups_guard_parts; [exact (GG Esm) | reflexivity]] | auto].
   Qed.
 
   Lemma get_defaults_fresh_in_section p g :
@@ -803,6 +857,7 @@ End Frame.
 Lemma guard_heap_flat p h o : guard p h o = true -> heap_flat h = true.
 Proof.
   unfold guard, guard_class.
+  destruct (negb (groups_guard h o)); [discriminate|].
   destruct (negb _); [discriminate|].
   destruct o; try (destruct (heap_flat h); [reflexivity | discriminate]).
   destruct (parse_object_arg_ok h a); [|discriminate]. destruct (heap_flat h); [reflexivity | discriminate].
@@ -810,28 +865,44 @@ Qed.
 
 (* frame: every object that existed before the call is, after the call, exactly what it was —
    whether the call returned or raised (or the model ran out of fuel). *)
+Lemma guard_groups p h o : guard p h o = true -> groups_guard h o = true.
+Proof. unfold guard, guard_class. destruct (groups_guard h o); [reflexivity | discriminate]. Qed.
+
+Lemma frame_sm :
+  forall (sm fx : bool) (p : parser) (h0 : heap) (o : op) (g : globals),
+    (fx = false -> guard p h0 o = true) -> (sm = false -> groups_guard h0 o = true) ->
+    firstn (length h0) (s_h (out_st (run_op_sm sm fx p o (mkst h0 g)))) = h0.
+Proof.
+  intros sm fx p h0 o g G GG.
+  assert (Hf : fx = false -> heap_flat h0 = true) by (intro E; exact (guard_heap_flat _ _ _ (G E))).
+  pose proof (run_op_safe h0 fx Hf sm p o G GG (mkst h0 g) (inv_h0 h0)) as H. simpl in H.
+  destruct (run_op_sm sm fx p o (mkst h0 g)) as [a s'|k s']; simpl; [destruct H as [[_ [H _]] _] | destruct H as [_ [H _]]]; exact H.
+Qed.
+
 Lemma frame_gen :
   forall (fx : bool) (p : parser) (h0 : heap) (o : op) (g : globals),
-    (fx = false -> guard p h0 o = true) ->
+    (fx = false -> guard p h0 o = true) -> groups_guard h0 o = true ->
     firstn (length h0) (s_h (out_st (run_op_gen fx p o (mkst h0 g)))) = h0.
-Proof.
-  intros fx p h0 o g G.
-  assert (Hf : fx = false -> heap_flat h0 = true) by (intro E; exact (guard_heap_flat _ _ _ (G E))).
-  pose proof (run_op_safe h0 fx Hf p o G (mkst h0 g) (inv_h0 h0)) as H. simpl in H.
-  destruct (run_op_gen fx p o (mkst h0 g)) as [a s'|k s']; simpl; [destruct H as [[_ [H _]] _] | destruct H as [_ [H _]]]; exact H.
-Qed.
+Proof. intros fx p h0 o g G GG. apply (frame_sm false); auto. Qed.
 
 Theorem frame_all :
   forall (p : parser) (h0 : heap) (o : op) (g : globals),
     guard p h0 o = true ->
     firstn (length h0) (s_h (out_st (run_op p o (mkst h0 g)))) = h0.
-Proof. intros p h0 o g G. apply (frame_gen false). intros _. exact G. Qed.
+Proof. intros p h0 o g G. apply (frame_gen false); [intros _; exact G | exact (guard_groups _ _ _ G)]. Qed.
 
-(* the tree with both patches: no guard at all *)
+(* the tree with the first two patches: no guard but the one of the open finding empty-config-not-copied *)
 Theorem frame_fixed :
   forall (p : parser) (h0 : heap) (o : op) (g : globals),
+    groups_guard h0 o = true ->
     firstn (length h0) (s_h (out_st (run_op_fixed p o (mkst h0 g)))) = h0.
-Proof. intros p h0 o g. apply (frame_gen true). discriminate. Qed.
+Proof. intros p h0 o g GG. apply (frame_gen true); [discriminate | exact GG]. Qed.
+
+(* ... with strip_meta always copying as well: no guard at all *)
+Theorem frame_fixed3 :
+  forall (p : parser) (h0 : heap) (o : op) (g : globals),
+    firstn (length h0) (s_h (out_st (run_op_fixed3 p o (mkst h0 g)))) = h0.
+Proof. intros p h0 o g. apply (frame_sm true true); discriminate. Qed.
 
 Lemma nth_frame (h0 h : heap) l c : firstn (length h0) h = h0 -> nth_error h0 l = Some c -> nth_error h l = Some c.
 Proof.
@@ -847,9 +918,15 @@ Proof. intros p h0 o g l c G E. eapply nth_frame; [apply frame_all; exact G | ex
 
 Corollary frame_fixed_loc :
   forall (p : parser) (h0 : heap) (o : op) (g : globals) (l : nat) (c : cell),
-    nth_error h0 l = Some c ->
+    groups_guard h0 o = true -> nth_error h0 l = Some c ->
     nth_error (s_h (out_st (run_op_fixed p o (mkst h0 g)))) l = Some c.
-Proof. intros p h0 o g l c E. eapply nth_frame; [apply frame_fixed | exact E]. Qed.
+Proof. intros p h0 o g l c GG E. eapply nth_frame; [apply frame_fixed; exact GG | exact E]. Qed.
+
+Corollary frame_fixed3_loc :
+  forall (p : parser) (h0 : heap) (o : op) (g : globals) (l : nat) (c : cell),
+    nth_error h0 l = Some c ->
+    nth_error (s_h (out_st (run_op_fixed3 p o (mkst h0 g)))) l = Some c.
+Proof. intros p h0 o g l c E. eapply nth_frame; [apply frame_fixed3 | exact E]. Qed.
 
 (* get_defaults hands out a tree that shares no container with the declared defaults (or anything
    else that existed), and leaves the declared defaults as they were: calling it twice gives two
@@ -864,7 +941,7 @@ Lemma defaults_untouched_gen :
 Proof.
   intros fx p h0 g G.
   assert (Hf : fx = false -> heap_flat h0 = true) by (intro E; exact (guard_heap_flat _ _ _ (G E))).
-  pose proof (frame_gen fx p h0 OGetDefaults g G) as Hfr. simpl in Hfr.
+  pose proof (frame_gen fx p h0 OGetDefaults g G eq_refl) as Hfr. simpl in Hfr.
   assert (Hp : okp h0 fx p).
   { destruct fx; [apply okp_fixed; reflexivity|]. apply okp_flat.
     specialize (G eq_refl). unfold guard, guard_class in G. simpl in G.
@@ -971,15 +1048,26 @@ Lemma save_restores fx p ex c : restores (save fx p ex c).
 Proof. unfold save, chdir_region. rst. Qed.
 Lemma strip_unknown_restores fx p c : restores (strip_unknown fx p c).
 Proof. unfold strip_unknown. rst. Qed.
+Lemma inst_typed_restores fx p c : restores (inst_typed fx p c).
+Proof. unfold inst_typed. rst. Qed.
+#[global] Hint Resolve inst_typed_restores : rstdb.
 Lemma instantiate_restores fx p c : restores (instantiate fx p c).
 Proof. unfold instantiate. rst. Qed.
-#[global] Hint Resolve save_restores strip_unknown_restores instantiate_restores : rstdb.
+Lemma instantiate_groups_restores sm fx p gs c : restores (instantiate_groups sm fx p gs c).
+Proof. unfold instantiate_groups, group_step. rst. Qed.
+#[global] Hint Resolve save_restores strip_unknown_restores instantiate_restores instantiate_groups_restores : rstdb.
 
+Lemma brackets_restore_sm :
+  forall (sm fx : bool) (p : parser) (o : op) (s : st) (x : nat), s_g (out_st (run_op_sm sm fx p o s)) x = s_g s x.
+Proof.
+  intros sm fx p o. change (restores (run_op_sm sm fx p o)). destruct o; simpl; unfold parse_path, chdir_region; rst.
+Qed.
 Lemma brackets_restore_gen :
   forall (fx : bool) (p : parser) (o : op) (s : st) (x : nat), s_g (out_st (run_op_gen fx p o s)) x = s_g s x.
-Proof.
-  intros fx p o. change (restores (run_op_gen fx p o)). destruct o; simpl; unfold parse_path, chdir_region; rst.
-Qed.
+Proof. exact (brackets_restore_sm false). Qed.
+Theorem brackets_restore_fixed3 :
+  forall (p : parser) (o : op) (s : st) (x : nat), s_g (out_st (run_op_fixed3 p o s)) x = s_g s x.
+Proof. exact (brackets_restore_sm true true). Qed.
 Theorem brackets_restore_thm :
   forall (p : parser) (o : op) (s : st) (x : nat), s_g (out_st (run_op p o s)) x = s_g s x.
 Proof. exact (brackets_restore_gen false). Qed.
